@@ -53,6 +53,13 @@ def small_fragments():
         out.append('%sfragment f{C? labeled x}' % mp)
     out += ['fragment f{C labeled a C labeled b double bond to a C labeled c single bond to a C labeled d single bond to b '
             'stereo double bond c %s%s to d for double bond between a and b}' % (n, k) for n in ('', '! ') for k in ('cis', 'trans', 'notspecified')]
+    out += ['fragment f{C labeled c1 {connected to >=1 C, connected to =2 H, connected to =1 O}}',
+            'fragment f{C labeled c1 {connected to >=1 C, connected to =2 H, connected to =1 O, ! in ring of size 3}}',
+            'fragment f{O labeled o C labeled c1 single bond to o {connected to >=1 C, connected to =2 H, connected to =1 O}}',
+            'fragment f{C labeled c1 {connected to =2 H, connected to >=1 C, ! connected to >=1 O, connected to <3 C, connected to =0 N}}',
+            'fragment f{C labeled a C labeled b ring bond to a}', 'fragment f{C labeled a C labeled b nonring bond to a}',
+            'fragment f{C labeled a C labeled b nonring bond to a C labeled c ring bond to b}',
+            'fragment f{c labeled a c labeled b nonring bond to a}', 'fragment f{c labeled a c labeled b ring bond to a}']
     out += ['fragment f{C labeled a C labeled b single bond to a C labeled c single bond to b ringbond a single bond to c}',
             'fragment f{c labeled a c labeled b aromatic bond to a c labeled c aromatic bond to b}',
             'fragment f{C labeled c1 {connected to 0 Pt with any bond} $? labeled a1 single bond to c1 $? labeled a2 single bond to c1 '
@@ -75,14 +82,16 @@ def run(ctx):
     jobs = []
     # bounded-exhaustive part: every small fragment against a slice of the small molecules
     per = ctx.n(5, 25)
-    multiring = ['C1CCC2CC2C1', 'C1CC2CCC12', 'C1CC12CCCC2', 'C1CC2CC1CC2', 'C1CCC2(CC1)CC2', 'c1ccc2CCCc2c1', 'C1CC2CCCC2C1', 'C1CC2C1C2', 'C1CCCC1', 'C1CCCCC1']
+    multiring = ['c1ccccc1c1ccccc1', 'C1CC1C1CC1', 'C1CC1C1CCC1', 'C1CC1CC1CC1', 'C1CCC2CC2C1', 'C1CC2CCC12', 'C1CC12CCCC2', 'C1CC2CC1CC2', 'C1CCC2(CC1)CC2', 'c1ccc2CCCc2c1', 'C1CC2CCCC2C1', 'C1CC2C1C2', 'C1CCCC1', 'C1CCCCC1']
     charged = ['CC(=O)[O-]', '[OH-]', '[CH3-]', 'C[O-]', '[NH4+]', '[CH3+]', 'C[NH3+]', '[O-][N+](=O)C', 'C[N+](C)(C)C', 'CC',
                # charged AND radical
                'C[CH+]', 'C[C+]', 'C[NH2+]', 'C[O+]', 'C[CH-]', 'C[N-]', '[CH2+]', '[NH3+]', '[O-]']
     for t in frags:
         sm = rng.sample(mols, per)
         if 'ring' in t:
-            sm += rng.sample(multiring, ctx.n(4, 10))     # atoms in several rings of different sizes
+            sm += rng.sample(multiring, ctx.n(4, 10))     # atoms in several rings of different sizes; rings bonded to rings
+        if t.count('connected to') >= 3:
+            sm += ['OCCN', 'OCC', 'CCO', 'OCCO', 'CC(O)C', 'NCCO', 'OC1CC1']
         if t.startswith(('positive', 'negative', 'neutral')) or '+' in t or '- ' in t or '-.' in t:
             sm += charged
         jobs.append({'op': 'match', 'text': t, 'smiles': sm, 'graphs': True, 'timeout': 30})
